@@ -31,8 +31,9 @@ RULE = ('one evaluation = one sampled cache (Cache or FanoutCache shards; 4-14 i
         'remaining item is read back and compared; non-trivial = at least one damage item applied; distinct = SHA-256 of (cache '
         'program, damage list)')
 RULE += ' ' + 'Unknown files also get hidden (dot-prefixed, .nfs), backup (~) names and hidden directories; two damage subsets of one seed in 23 run in child interpreters started with -W ignore and -W error::UserWarning.'
+RULE += ' ' + 'Directory spellings include a symbolic link to the real directory.'
 ASSUMPTIONS = ['damage is applied while no operation is in flight', 'truncation of text happens on a code-point boundary and extension appends ASCII, except in the low-rate probe of known finding F14']
-PROBES = ('damage_items', 'fanout_runs', 'rows_removed_by_fix', 'f14_probe', 'dir_spelled_dot', 'dir_spelled_double', 'dir_spelled_trailing', 'dir_spelled_dotdot', 'dir_spelled_relative', 'more_than_100_file_rows', 'journal_mode_not_wal', 'mass_loss', 'unknown_hidden_name')
+PROBES = ('damage_items', 'fanout_runs', 'rows_removed_by_fix', 'f14_probe', 'dir_spelled_dot', 'dir_spelled_double', 'dir_spelled_trailing', 'dir_spelled_dotdot', 'dir_spelled_relative', 'dir_spelled_symlink', 'more_than_100_file_rows', 'journal_mode_not_wal', 'mass_loss', 'unknown_hidden_name')
 TECHNIQUE = 'deterministic simulation with out-of-band damage injection: damage-kind subsets enumerated per sampled cache; report / convergence / undamaged-intact oracle with an independent auditor'
 LEVEL_TEXT = ('fault enumeration over damage-kind subsets: caches are sampled by seed, and for each cache every non-empty subset of the '
               'seven damage kinds is applied (thorough tier); the oracle knows exactly what it damaged and compares the two warning lists per '
@@ -79,7 +80,7 @@ def gen_case(seed, tier):
            # SQLite keeps other files next to cache.db under the other (documented) journal modes
            'journal': rng.choice(('wal', 'wal', 'wal', 'truncate', 'persist', 'delete')),
            # how the caller spells the directory: check() compares paths it builds from rows with paths it finds by walking
-           'dirform': rng.choice(('plain', 'plain', 'plain', 'dot', 'double', 'trailing', 'dotdot', 'relative', 'relative-dot'))}
+           'dirform': rng.choice(('plain', 'plain', 'plain', 'dot', 'double', 'trailing', 'dotdot', 'relative', 'relative-dot', 'symlink'))}
     return {'seed': seed, 'cfg': cfg, 'items': items, 'damage': []}
 
 
@@ -104,6 +105,12 @@ def spelled(world, name, form):
     if form == 'dotdot':
         os.makedirs(world.path('side'), exist_ok=True)
         return world.path('side', '..', name)
+    if form == 'symlink':
+        # the configured path is a symbolic link to where the data really lives (/var/cache/app -> /data/cache/app)
+        os.makedirs(world.path(name + '-real'), exist_ok=True)
+        if not os.path.islink(world.path(name)):
+            os.symlink(world.path(name + '-real'), world.path(name))
+        return world.path(name)
     if form in ('relative', 'relative-dot'):
         os.chdir(world.root)
         return name if form == 'relative' else './' + name
